@@ -288,6 +288,9 @@ class Machine:
             ctx.assume(self.spec_bool(u))
         for i, e in enumerate(c.ensures):
             ctx.check(self.spec_bool(e), f"{c.key}/post[{i}]", "post")
+        if c.post_hook is not None:
+            for name, goal in c.post_hook(self):
+                ctx.check(goal, f"{c.key}/{name}", "post")
         ctx.canary_points += 1
 
     def finish_raise(self, exc: VExc) -> None:
@@ -977,7 +980,10 @@ class Machine:
         elif items and isinstance(items[0], VTerm):
             es = items[0].sort
         else:
-            raise EngineError(f"{self.contract.key}: element sort of a new {kind} is unknown; declare it in contract.locals")
+            if self.spec:
+                raise EngineError(f"{self.contract.key}: element sort of a new {kind} is unknown")
+            # an empty list whose element sort is fixed by the first append
+            return VHeapRef(self.ctx.alloc(kind, None, {"untyped": True}), kind)
         sv = seq_of(es).coerce(VTuple(items))
         if self.spec:
             return sv
@@ -1101,6 +1107,8 @@ class Machine:
                 if isinstance(op, ast.FloorDiv):
                     return VInt(q)
                 return VInt(a.term - b.term * q)
+        if isinstance(op, ast.Mult) and isinstance(a, VStr) and isinstance(b, VInt) and z3.is_string_value(a.term) and z3.is_int_value(z3.simplify(b.term)):
+            return VStr(a.term.as_string() * z3.simplify(b.term).as_long())
         if isinstance(op, ast.Add):
             if isinstance(a, VStr) and isinstance(b, VStr):
                 return VStr(z3.Concat(a.term, b.term))
@@ -1153,6 +1161,8 @@ class Machine:
             if c.kind in ("list", "deque", "iter"):
                 if c.kind == "iter":
                     return z3.BoolVal(True)
+                if c.value is None:
+                    return z3.BoolVal(False)
                 return z3.Length(c.value.term) > 0
             if c.kind == "dict":
                 from .maps import dict_nonempty
